@@ -26,6 +26,7 @@ func main() {
 	outDir := flag.String("out", "", "directory for evidence output (default <verif>/evidence)")
 	explain := flag.String("explain", "", "replay file: re-derive and print the obligation it names")
 	list := flag.Bool("list", false, "list properties and rules")
+	genFT := flag.Bool("gen-fieldtable", false, "print core/fieldtable_gen.go for the tree at -repo (run on the reviewed tree only)")
 	fixturesOnly := flag.Bool("fixtures", false, "run only the fixture self-test for -prop (or all)")
 	flag.Parse()
 
@@ -37,6 +38,15 @@ func main() {
 			}
 			fmt.Println()
 		}
+		return
+	}
+	if *genFT {
+		p, err := core.Load(*repo, "linux")
+		if err != nil {
+			fmt.Fprintln(os.Stderr, err)
+			os.Exit(2)
+		}
+		fmt.Print(p.GenFieldTable())
 		return
 	}
 	if *explain != "" {
